@@ -353,8 +353,38 @@ def dist_cases(draw):
             "trained": draw(st.booleans())}
 
 
+def partial_index_sweep():
+    """Every index KIND Partial documents (int, negative int, slices with steps, int array, bool mask, full-rank mask,
+    tuples with ints / slices / ellipsis / a mask inside the tuple): each must trace (jit) and vmap like any other bijection."""
+    inp = {"xraw": [0.3, -1.1, 0.7, 1.9, -0.4, 0.05, 2.2, -0.9], "xpick": [-1] * 8, "craw": [0.4, -0.6, 1.1, 0.2, -1.3, 0.9, 0.1, -0.2],
+           "sigma": 1.0}
+    S = lambda a, b, c: {"t": "slice", "v": [a, b, c]}  # noqa: E731
+    I = lambda v: {"t": "int", "v": v}  # noqa: E731
+    M = lambda v: {"t": "barr", "v": v}  # noqa: E731
+    T = lambda *v: {"t": "tuple", "v": list(v)}  # noqa: E731
+    idxs = [((4,), I(1)), ((4,), I(-1)), ((4,), S(1, 3, None)), ((4,), S(0, 4, 2)), ((4,), S(None, None, -1)),
+            ((4,), {"t": "iarr", "v": [2, 0]}), ((4,), M([True, False, True, False])),
+            ((3, 2), M([[True, False], [False, False], [True, True]])), ((3, 2), T(S(0, 3, None), I(1))), ((3, 2), T(I(0), I(-1))),
+            ((3, 2), T({"t": "ellipsis"}, I(0))), ((3, 2), T(S(0, 3, None), M([False, True]))), ((3, 2), T(I(2), M([True, True]))),
+            ((3, 2), T(M([True, False, True]), I(0))), ((3, 2), T(M([True, False, True]), S(0, 2, None)))]
+    for sh, idx in idxs:
+        sel = np.zeros(sh)[bd.py_index(idx)]
+        yield {"kind": "tree", "spec": {"k": "Partial", "shape": list(sh), "idx": idx,
+                                        "child": {"k": "Affine", "shape": list(np.shape(sel)), "seed": 7}},
+               "pscale": 0.3, "inp": inp}
+
+
 def run(ctx):
     q = ctx.tier == "quick"
+    from vf.core import shard
+    n = 0
+    for c in shard(partial_index_sweep(), ctx):
+        try:
+            oracle(c, ctx)
+        except Violation as v:
+            ctx.fail(v.signature, c, v.detail)
+        n += 1
+    ctx.exhaustive["partial_index_sweep"] = n
     run_hypothesis(ctx, sibling_cases(), oracle, 5 if q else 50, "C14-siblings")
     run_hypothesis(ctx, bc.leaf_cases(inv=False), oracle, 20 if q else 200, "C14-leaves")
     run_hypothesis(ctx, bc.tree_cases(3, 7, inv=False) if q else bc.tree_cases(4, 12, inv=False), oracle, 6 if q else 60,
